@@ -2,7 +2,7 @@
 EXTENDS IndexedList, Json
 CONSTANT Depth
 \* the generator starts at the sizes to be sealed (every stage is an initial state of Spec anyway)
-GenInit == n \in Sizes /\ sealed = FALSE /\ reopened = FALSE /\ hist = <<>>
+GenInit == n \in Sizes /\ sealed = FALSE /\ reopened = "no" /\ hist = <<>>
 GenSpec == GenInit /\ [][Next]_vars
 Emit == (Len(hist) = Depth) => PrintT(<<"B", ToJson(hist)>>)
 ====
